@@ -79,11 +79,12 @@ def parse_listing_line(line):
 def _raiser(exc):
     """(exception type name, innermost function inside the repository that raised it)"""
     tb = exc.__traceback__
-    where = "?"
+    frames = []
     for fs in traceback.extract_tb(tb):
         fn = fs.filename
         if fn.startswith(REPO):
-            where = "{}:{}".format(os.path.relpath(fn, REPO), fs.name)
+            frames.append("{}:{}".format(os.path.basename(fn)[:-3], fs.name))
+    where = ">".join(frames[-3:]) if frames else "?"
     return type(exc).__name__, where
 
 
